@@ -248,7 +248,7 @@ example : Generated.frdGetitem (PyFRD.of exM .cont) ([1, 0], [1])
     = (exM.select [1, 0] [1]).map fun R => PyFRD.of R .cont :=
   generated_getitem_eq exM .cont [1, 0] [1] Nat.two_pos
 
-example : Generated.frdEval (PyFRD.of exM .cont) (PVec.ofList [2, 1, 2])
+example : Generated.frdEval (PyFRD.of exM .cont) (FVec.ofList [2, 1, 2])
     = (exM.eval [2, 1, 2]).map fun l => PArr3.ofList 2 2 l :=
   generated_eval_eq exM .cont [2, 1, 2] rfl
 
